@@ -14,6 +14,7 @@ R.declare_class("Change", {"sample": INT, "chromosome": INT, "variant": REF("Var
 HEADER = z3.IntVal(-7)
 LINE = z3.Function("LINE", *([z3.IntSort()] * 8))
 REPR = z3.Function("REPR", z3.IntSort(), z3.IntSort())
+LINE9 = z3.Function("LINE9", *([z3.IntSort()] * 10))
 
 
 class FileHandle(VModel):
@@ -40,9 +41,12 @@ class FileHandle(VModel):
             line = HEADER
         else:
             zs = [to_z3(a) for a in args]
-            if len(zs) != 7:
+            if len(zs) == 9:
+                line = LINE9(*zs)
+            elif len(zs) != 7:
                 raise Unsupported("row with %d fields" % len(zs))
-            line = LINE(*zs)
+            else:
+                line = LINE(*zs)
         eng.store_field(st, self.path, "lines", eng.list_append(lines, line))
         return NONE
 
@@ -443,3 +447,154 @@ def CROSSCHECK():
         except Exception as e:      # noqa: BLE001
             return ("raise", type(e).__name__)
     return [Case("find_components", gen, real, n=80, probe=lambda inp: list(range(0, 31)))]
+
+
+
+# ---------------------------------------------------------------------------------------------------------------------------------
+# write_recombination_list (C20): like the changed-genotype list the file is APPENDED to -- entries of earlier chromosomes and families stay, the header is
+# written only into an empty file -- and then holds, trio by trio in the order of `trios`, one row per recombination event that find_recombination reports for
+# that trio's transmission values, in the order reported, with 1-based positions; the number returned is the number of rows written.
+# find_recombination (pedigree.py) is an ASSUMED deterministic function of its arguments here (FINDREC); the per-trio transmission lists are whatever the
+# decoding loop of this function builds (a defaultdict(list) keyed by child); NEV / OFFSET are the counting functions of the events per trio.
+R.declare_class("Trio", {"child": INT})
+R.declare_class("Event", {"position1": INT, "position2": INT, "transmitted_hap_father1": INT, "transmitted_hap_father2": INT, "transmitted_hap_mother1": INT,
+                          "transmitted_hap_mother2": INT, "recombination_cost": INT})
+_LI = z3.ArraySort(z3.IntSort(), z3.IntSort())
+FINDREC_ARR = z3.Function("FINDREC_EVENTS", _LI, z3.IntSort(), z3.IntSort(), _LI)
+FINDREC_LEN = z3.Function("FINDREC_COUNT", _LI, z3.IntSort(), z3.IntSort(), z3.IntSort())
+
+
+class DefaultDictOfLists(VModel):
+    """defaultdict(list) keyed by integers: a missing key reads as the empty list; d[k].append(x) stores the extended list"""
+
+    def __init__(self, d=None):
+        self.d = d if d is not None else VDict(INT, LIST(INT), z3.K(z3.IntSort(), z3.BoolVal(False)), z3.K(z3.IntSort(), to_z3(VList(INT, z3.K(z3.IntSort(), z3.IntVal(0)), z3.IntVal(0)))))
+
+    def get(self, key):
+        k = to_z3(key)
+        lst = from_z3(self.d.map[k], self.d.val)
+        return VList(INT, lst.arr, z3.If(z3.And(self.d.dom[k], lst.len >= 0), lst.len, 0))
+
+    def sym_getitem(self, eng, st, key):
+        return self.get(key)
+
+    def sym_setitem(self, eng, st, key, v):
+        k = to_z3(key)
+        return DefaultDictOfLists(VDict(INT, LIST(INT), z3.Store(self.d.dom, k, True), z3.Store(self.d.map, k, to_z3(v))))      # a new value: states may share the old one
+
+    def havoc(self, eng, st, name):
+        return DefaultDictOfLists(DICT(INT, LIST(INT)).fresh(name))
+
+
+def model_defaultdict(eng, st, node, args, kwargs):
+    return DefaultDictOfLists()
+
+
+def _findrec(eng, st, tvlist, stamp):
+    """the events find_recombination returns for this transmission list (the other three arguments are the same for every trio: `stamp` stands for them)"""
+    return VList(REF("Event"), FINDREC_ARR(tvlist.arr, tvlist.len, stamp), FINDREC_LEN(tvlist.arr, tvlist.len, stamp))
+
+
+_STAMP = z3.Int("REC_ARGS")
+
+
+def model_find_recombination(eng, st, node, args, kwargs):
+    ev = _findrec(eng, st, args[0], _STAMP)
+    st.assume(ev.len >= 0)
+    i = z3.Int(fresh_name("i"))
+    st.assume(forall_pat([i], z3.Implies(z3.And(0 <= i, i < ev.len), z3.And(ev.arr[i] > 0, ev.arr[i] < eng.alloc_bound(st, "Event"))), [ev.arr[i]]))
+    eng.assumptions.add("find_recombination (whatshap/pedigree.py) is used as a deterministic function of its arguments returning a list of event objects (assumed, not verified)")
+    return ev
+
+
+R.constants["list"] = z3.IntVal(0)       # the type object, only ever the argument of defaultdict
+R.external_models["defaultdict"] = model_defaultdict
+R.external_models["find_recombination"] = model_find_recombination
+
+
+@R.spec
+def events_of(eng, st, t):
+    return _events_under(eng, st, to_z3(st.env["transmission_vector_trio"].d), to_z3(t))
+
+
+_DSORT = DICT(INT, LIST(INT))
+OFFSET = z3.Function("REC_OFFSET", _DSORT.z3sort(), z3.IntSort(), z3.IntSort())
+
+
+def _events_under(eng, st, dval, t):
+    """the events find_recombination returns for trio t when the per-child transmission lists are the dictionary value dval"""
+    child = to_z3(eng.load_field_raw(st, VRef("Trio", st.env["trios"].arr[t]), "child"))
+    return _findrec(eng, st, DefaultDictOfLists(from_z3(dval, _DSORT)).get(child), _STAMP)
+
+
+@R.spec
+def offset(eng, st, t):
+    """number of events of the trios before t (OFFSET of the dictionary the decoding loop built)"""
+    return OFFSET(to_z3(st.env["transmission_vector_trio"].d), to_z3(t))
+
+
+@R.spec
+def RECDEFS(eng, st):
+    """definition of OFFSET by recurrence, for every dictionary value D: OFFSET(D, 0) = 0, OFFSET(D, t+1) = OFFSET(D, t) + number of events of trio t under D"""
+    D = z3.Const(fresh_name("D"), _DSORT.z3sort())
+    t = z3.Int(fresh_name("t"))
+    n = st.env["trios"].len
+    return z3.And(z3.ForAll([D], OFFSET(D, 0) == 0, patterns=[OFFSET(D, 0)]),
+                  z3.ForAll([D, t], z3.Implies(z3.And(0 <= t, t < n), z3.And(OFFSET(D, t + 1) == OFFSET(D, t) + _events_under(eng, st, D, t).len, OFFSET(D, t) >= 0)),
+                            patterns=[OFFSET(D, t)]))
+
+
+@R.spec
+def FINDREC_RETURNS_LISTS(eng, st):
+    """part of the assumed contract of find_recombination: whatever the arguments, the result is a list (length >= 0)"""
+    a = z3.Const(fresh_name("a"), _LI)
+    n, s_ = z3.Ints(fresh_name("n") + " " + fresh_name("s"))
+    return z3.ForAll([a, n, s_], FINDREC_LEN(a, n, s_) >= 0, patterns=[FINDREC_LEN(a, n, s_)])
+
+
+@R.spec
+def RECROW(eng, st, t, e):
+    f = lambda n: to_z3(eng.load_field_raw(st, e, n))
+    child = to_z3(eng.load_field_raw(st, VRef("Trio", st.env["trios"].arr[to_z3(t)]), "child"))
+    return LINE9(child, to_z3(st.env["chromosome"]), f("position1") + 1, f("position2") + 1, f("transmitted_hap_father1"), f("transmitted_hap_father2"),
+                 f("transmitted_hap_mother1"), f("transmitted_hap_mother2"), f("recombination_cost"))
+
+
+_RB = "(old(len(path.lines)) + (1 if old(len(path.lines)) == 0 else 0))"
+_RPREFIX = "forall(k, implies(0 <= k and k < old(len(path.lines)), path.lines[k] == old(path.lines[k])))"
+_RHEADER = "implies(old(len(path.lines)) == 0, path.lines[0] == HEADER_LINE())"
+_RROWS = ("forall(t, i, implies(0 <= t and t < {t} and 0 <= i and i < len(events_of(t)), path.lines[" + _RB + " + offset(t) + i] == RECROW(t, events_of(t)[i])))")
+R.contract(
+    "write_recombination_list",
+    params={"path": REF("Path"), "chromosome": INT, "accessible_positions": LIST(INT), "overall_components": DICT(INT, INT), "recombination_costs": LIST(INT),
+            "transmission_vector": LIST(INT), "trios": LIST(REF("Trio"))},
+    returns=INT,
+    requires=[("trios-valid", "forall(t, implies(0 <= t and t < len(trios), trios[t] is not None))")],
+    ensures=[("earlier-entries-preserved", _RPREFIX), ("header-once", _RHEADER),
+             ("one-row-per-event", "len(path.lines) == " + _RB + " + offset(len(trios)) and result == offset(len(trios))"),
+             ("rows-trio-by-trio-in-order", _RROWS.format(t="len(trios)"))],
+    modifies=["Path.lines"],
+    locals={"n": INT, "value": INT, "transmission_vector_value": INT, "trio": REF("Trio"), "recombination_events": LIST(REF("Event"))},
+    loops={
+        0: dict(index="vi", inv=[]),
+        1: dict(index="ti0", inv=[]),
+        2: dict(index="ti", modifies=["Path.lines"],
+                inv=[("earlier-trios-end-before", "forall(t, implies(0 <= t and t < ti, offset(t) >= 0 and offset(t) + len(events_of(t)) <= offset(ti)))"), ("prefix", _RPREFIX), ("header", _RHEADER), ("length", "len(path.lines) == " + _RB + " + offset(ti) and n == offset(ti)"),
+                     ("rows", _RROWS.format(t="ti"))]),
+        3: dict(index="ei", modifies=["Path.lines"],
+                inv=[("earlier-trios-end-before", "forall(t, implies(0 <= t and t < ti, offset(t) >= 0 and offset(t) + len(events_of(t)) <= offset(ti)))"), ("prefix", _RPREFIX), ("header", _RHEADER), ("length", "len(path.lines) == " + _RB + " + offset(ti) + ei and n == offset(ti)"),
+                     ("rows", _RROWS.format(t="ti")),
+                     ("this-trio", "trio is trios[ti] and forall(i, implies(0 <= i and i < ei, path.lines[" + _RB + " + offset(ti) + i] == RECROW(ti, events_of(ti)[i])))")]),
+    },
+    extra={"assume": ["FINDREC_RETURNS_LISTS()", "RECDEFS()"]},
+    props=["C20"])
+
+
+def canary_recomb():
+    import copy
+    c = copy.copy(R.contracts["write_recombination_list"])
+    c.ensures = [("wrong", "path.lines[0] == HEADER_LINE()")]     # "the file always starts with a fresh header" = truncation
+    return c
+
+
+R.canaries.append(("phase.py:canary#recombination-list-restarts-with-header", canary_recomb))
